@@ -376,6 +376,101 @@ pub fn run(run: &Run) {
         }
     }
     run.count("digestless_shape_streams_every_one_call_prefix", shape_ok);
+    // (i) a peer packet 1 with every digest-pointer byte sum 0..=1020 at either pointer position (random content,
+    //     so digest-less): both roles must answer with an echo, never panic or fail
+    {
+        let jobs: Vec<(Role, usize, u32)> = [Role::Server, Role::Client].iter().flat_map(|r| [8usize, 772].into_iter().flat_map(move |p| (0..=1020u32).map(move |s| (*r, p, s)))).collect();
+        let ok = AtomicU64::new(0);
+        jobs.par_iter().for_each(|(role, ptr, sum)| {
+            let side = Side { role: *role, seed: 900 + *sum as u64, speaks_first: *sum % 2 == 0 };
+            let mut p1 = vec![0u8; 1536];
+            let mut x: u64 = 0x9E3779B97F4A7C15 ^ ((*sum as u64) << 8) ^ *ptr as u64;
+            for b in p1.iter_mut() {
+                x ^= x << 13;
+                x ^= x >> 7;
+                x ^= x << 17;
+                *b = x as u8;
+            }
+            let mut rest = *sum;
+            for k in 0..4 {
+                let v = rest.min(255);
+                p1[*ptr + k] = v as u8;
+                rest -= v;
+            }
+            let (mut h, out0) = start(&side);
+            let mut stream = vec![3u8];
+            stream.extend_from_slice(&p1);
+            calls.fetch_add(1, Ordering::Relaxed);
+            let replay = json!({"role": format!("{:?}", role), "pointer_bytes_at": ptr, "pointer_byte_sum": sum, "speaks_first": side.speaks_first});
+            match feed(&side, &mut h, &stream) {
+                Res::InProgress(r) => {
+                    let mut all = out0.clone();
+                    all.extend(r);
+                    if all.len() != HS || all[1537..] != p1[..] {
+                        run.violation("C05/digestless-peer-not-echoed", &format!("library {:?}: peer packet 1 with pointer bytes at {} summing to {}: {} bytes emitted, packet 2 {} the peer's packet 1", role, ptr, sum, all.len(), if all.len() == HS { "differs from" } else { "cannot be compared with" }), replay);
+                    } else {
+                        ok.fetch_add(1, Ordering::Relaxed);
+                    }
+                }
+                other => run.violation(if matches!(other, Res::Panic(_)) { "C05/panic" } else { "C05/error" }, &format!("library {:?}: peer packet 1 with pointer bytes at {} summing to {}: {}", role, ptr, sum, short(&other)), replay),
+            }
+        });
+        run.count("peer_packet1_pointer_sums", ok.load(Ordering::Relaxed));
+    }
+    // (ii) large amounts of application data behind the peer's last handshake packet, in the same call and split
+    {
+        let (cstream, sstream) = library_streams(41, 42);
+        let mut n = 0u64;
+        for t in [4_608usize, 4_609, 5_000, 70_000, 1_000_000] {
+            let tail: Vec<u8> = (0..t).map(|i| (i as u32).wrapping_mul(2654435761).to_be_bytes()[0]).collect();
+            for (role, base) in [(Role::Server, &cstream), (Role::Client, &sstream)] {
+                let mut stream = base.clone();
+                stream.extend_from_slice(&tail);
+                let side = Side { role, seed: if role == Role::Server { 42 } else { 41 }, speaks_first: role == Role::Client };
+                let cut_sets: Vec<Vec<usize>> = vec![vec![], vec![1537], vec![3072], vec![3073], vec![1536, 3072], vec![700, 3073 + t / 2], vec![3073 - 836, 3073 + 1]];
+                for cuts in cut_sets {
+                    let (mut h, _) = start(&side);
+                    let mut prev = 0usize;
+                    let mut ends = cuts.clone();
+                    ends.push(stream.len());
+                    let mut completed = false;
+                    let mut rem_all: Vec<u8> = Vec::new();
+                    let mut bad: Option<String> = None;
+                    for e in ends.iter() {
+                        calls.fetch_add(1, Ordering::Relaxed);
+                        if completed {
+                            // application data after completion is the caller's business
+                            rem_all.extend_from_slice(&stream[prev..*e]);
+                            prev = *e;
+                            continue;
+                        }
+                        match feed(&side, &mut h, &stream[prev..*e]) {
+                            Res::InProgress(_) => {}
+                            Res::Completed(_, rem) => {
+                                completed = true;
+                                rem_all.extend(rem);
+                            }
+                            other => {
+                                bad = Some(short(&other));
+                                break;
+                            }
+                        }
+                        prev = *e;
+                    }
+                    n += 1;
+                    let replay = json!({"role": format!("{:?}", role), "trailing_bytes": t, "calls_end_at": ends});
+                    if let Some(b) = bad {
+                        run.violation(if b.starts_with("panic") { "C05/panic" } else { "C05/error" }, &format!("library {:?} with {} bytes of application data behind the peer's handshake, calls ending at {:?}: {}", role, t, ends, b), replay);
+                    } else if !completed {
+                        run.violation("C05/not-completed", &format!("library {:?} with {} trailing bytes, calls ending at {:?}: not completed", role, t, ends), replay);
+                    } else if rem_all != tail {
+                        run.violation("C05/trailing-bytes", &format!("library {:?} with {} trailing bytes, calls ending at {:?}: {} bytes handed back, not equal to what was sent", role, t, ends, rem_all.len()), replay);
+                    }
+                }
+            }
+        }
+        run.count("large_trailing_data_deliveries", n);
+    }
     let mut total_edges = 0u64;
     let mut total_nodes = 0u64;
     let mut reports: Vec<Value> = Vec::new();
